@@ -20,7 +20,11 @@ use super::wire;
 struct Inner {
     /// (src, dst-hash, session id, epoch) -> (max ctr, map ctr -> bytes hash)
     sessions: HashMap<(usize, u64, u16, u64), (u32, HashMap<u32, u64>)>,
+    /// (src, ephemeral node ids, counter) -> bytes hash, for unsecured messages
+    unsecured_seen: HashMap<(usize, u64, u32), Vec<u8>>,
+    ack_piggyback_rebuilds: u64,
     violations: Vec<String>,
+    unsecured: u64,
     secured: u64,
     retransmissions: u64,
     /// new counters that appeared on the wire slightly out of order (not judged)
@@ -48,12 +52,49 @@ impl TapMonitor {
         let Some(info) = wire::peek(bytes) else {
             return;
         };
+        let mut inner = self.0.borrow_mut();
+        let h = Fnv::of(bytes);
         if info.session_id == 0 {
+            // Unsecured (handshake) messages carry no nonce, but a retransmission must still be
+            // bit-for-bit the original (Sigma2 / Sigma3 carry randomised signatures: a rebuilt
+            // message would differ). An unsecured session is identified by the ephemeral node
+            // ids in the header; its counter starts at a random value.
+            inner.unsecured += 1;
+            // Only messages that ask for an acknowledgement are ever retransmitted; stateless
+            // one-shot answers (Busy / SessionNotFound status reports, always sent with
+            // counter 1) are not retransmissions of each other.
+            if info.exch_flags.map(|f| f & wire::EXCH_R == 0).unwrap_or(true) {
+                return;
+            }
+            let key = (
+                src,
+                dst ^ info.src_node.unwrap_or(0) ^ info.dst_node.unwrap_or(0).rotate_left(17),
+                info.ctr,
+            );
+            let prev = inner.unsecured_seen.get(&key).cloned();
+            match prev {
+                Some(prev) if prev != bytes => {
+                    if same_but_for_piggyback_ack(&prev, bytes) {
+                        // The retransmission was rebuilt after a reliable message of the peer
+                        // arrived that did not acknowledge it, and now carries that message's
+                        // acknowledgement. On an unsecured session nothing is encrypted, so no
+                        // nonce is involved: counted, not judged.
+                        inner.ack_piggyback_rebuilds += 1;
+                    } else {
+                        inner.violations.push(format!(
+                            "unsecured-retransmission-differs: node {} unsecured message counter {} (opcode {:?}) sent twice with different bytes [{}] vs [{}]",
+                            src, info.ctr, info.opcode, crate::util::hex(&prev), crate::util::hex(bytes)
+                        ));
+                    }
+                }
+                Some(_) => inner.retransmissions += 1,
+                None => {
+                    inner.unsecured_seen.insert(key, bytes.to_vec());
+                }
+            }
             return;
         }
-        let mut inner = self.0.borrow_mut();
         inner.secured += 1;
-        let h = Fnv::of(bytes);
         let key = (src, dst ^ info.src_node.unwrap_or(0), info.session_id, epoch);
         let mut viol: Option<String> = None;
         let mut retrans = false;
@@ -118,6 +159,10 @@ impl TapMonitor {
         self.0.borrow().violations.clone()
     }
 
+    pub fn ack_piggyback_rebuilds(&self) -> u64 {
+        self.0.borrow().ack_piggyback_rebuilds
+    }
+
     pub fn regressed(&self) -> u64 {
         self.0.borrow().regressed
     }
@@ -130,5 +175,33 @@ impl TapMonitor {
     pub fn stats(&self) -> (u64, u64) {
         let i = self.0.borrow();
         (i.secured, i.retransmissions)
+    }
+}
+
+
+/// Do `a` and `b` (two unsecured datagrams with the same counter) differ only in the
+/// piggy-backed acknowledgement (A flag and / or the 4-byte acknowledged counter)?
+fn same_but_for_piggyback_ack(a: &[u8], b: &[u8]) -> bool {
+    fn strip(d: &[u8]) -> Option<Vec<u8>> {
+        let i = wire::peek(d)?;
+        let f = i.exch_flags?;
+        let payload_off = i.payload_off?;
+        let hdr = i.hdr_len;
+        let mut out = d[..hdr].to_vec();
+        out.push(f & !wire::EXCH_A);
+        if f & wire::EXCH_A != 0 {
+            if payload_off < hdr + 5 {
+                return None;
+            }
+            out.extend_from_slice(&d[hdr + 1..payload_off - 4]);
+        } else {
+            out.extend_from_slice(&d[hdr + 1..payload_off]);
+        }
+        out.extend_from_slice(&d[payload_off..]);
+        Some(out)
+    }
+    match (strip(a), strip(b)) {
+        (Some(x), Some(y)) => x == y,
+        _ => false,
     }
 }
